@@ -85,6 +85,7 @@ type Job struct {
 	Subs      []Sub  `json:"subs"`      // optional flat sub-groups (pod sets); Min is then the sum of their minimums
 	Topo      string `json:"topo"`      // name of the topology the job is constrained by ("" = none; may name a missing one)
 	TopoReq   int    `json:"topoReq"`   // required level: 1-based index into the scenario topology's levels (0 = none)
+	TopoPref  int    `json:"topoPref"`  // preferred (soft) level, same indexing; may be coarser than the required one
 }
 
 // Topology is the (single) topology CRD object of a scenario: node label keys, coarsest first.
@@ -392,6 +393,9 @@ func BuildPodGroup(sc *Scenario, j int, now time.Time) *enginev2alpha2.PodGroup 
 		pg.Spec.TopologyConstraint = enginev2alpha2.TopologyConstraint{Topology: job.Topo}
 		if job.TopoReq > 0 && job.TopoReq <= len(sc.Topo.Levels) {
 			pg.Spec.TopologyConstraint.RequiredTopologyLevel = sc.Topo.Levels[job.TopoReq-1]
+		}
+		if job.TopoPref > 0 && job.TopoPref <= len(sc.Topo.Levels) {
+			pg.Spec.TopologyConstraint.PreferredTopologyLevel = sc.Topo.Levels[job.TopoPref-1]
 		}
 	}
 	for _, sub := range job.Subs {
